@@ -64,7 +64,7 @@ class GEXTest:
 
         try:
             # Parse the server's KEX.
-            _, payload = s.read_packet(2)
+            _, payload = s.read_packet(2, exit_on_error=False)
             SSH2_Kex.parse(out, payload)
         except (KexDHException, struct.error):
             out.v("Failed to parse server's kex.  Stack trace:\n%s" % str(traceback.format_exc()), write_now=True)
